@@ -301,6 +301,7 @@ PyObject* py_is_same_labeling(PyObject* self, PyObject* args) {
     if (!numpy::are_arrays(labeled0, labeled1) ||
         !numpy::check_type<int>(labeled0) ||
         !numpy::check_type<int>(labeled1) ||
+        !numpy::same_shape(labeled0, labeled1) ||
         !PyArray_ISCARRAY(labeled0) ||
         !PyArray_ISCARRAY(labeled1)) {
         PyErr_SetString(PyExc_RuntimeError, TypeErrorMsg);
